@@ -82,6 +82,12 @@ OBLIGATIONS.append(dict(name="unpack_file_list_growth", harness="harness/C06_fil
     included_sources=["bin/rdsquashfs/src/fill_files.c"], incdirs=["bin/rdsquashfs/src"], defines=dict(NL=1, ADIR=0, GROW=1), unwind=8, malloc_fail=True,
     leak=True, tiers=["quick", "thorough"], timeout=300, fp_map={"destroy": ["d_out", "d_in"], "flush": ["flush_stub"]}, reach=["grown", "alloc_failed"],
     functions=["add_file, clear_file_list (bin/rdsquashfs/src/fill_files.c)"], bound="first insertion into the empty list (256 slots), any allocation may fail"))
+OBLIGATIONS.append(dict(name="dir_rec_next_alloc_failure", harness="harness/C13_dirrec.c", sources=["lib/util/src/alloc.c"], included_sources=["lib/sqfs/src/io/dir_rec.c"], pre_include=["stubs/vp_alloc_sizes.h"], defines=dict(VP_ALLOC_SIZES="17,18,66,68,70,96"),
+    unwind=8, malloc_fail=True, tiers=["quick", "thorough"], timeout=300,
+    fp_map={"destroy": ["base_destroy"], "next": ["base_next"], "open_subdir": ["base_open_subdir"]},
+    reach=["entry", "error", "end"], allow_unreached=True,
+    functions=["next, expand_path, pop, destroy, sqfs_dir_iterator_create_recursive (lib/sqfs/src/io/dir_rec.c)"],
+    bound="one call of next() from the state after construction (root or a sub-directory on the stack), the base iterator yields a file, a directory, an error or the end; every allocation and every base call may fail"))
 FPIO = {'read_at': ['vp_file_read_at'], 'write_at': ['vp_file_write_at'], 'truncate': ['vp_file_truncate'], 'get_size': ['vp_file_get_size'], 'do_block': ['cw_do_block', 'vp_cmp_do_block']}
 OBLIGATIONS.append(dict(name="blockwriter_io_failure_h1_nb1", harness="harness/C08_blockwriter.c", sources=["lib/util/src/file_cmp.c", "lib/util/src/array.c"],
     included_sources=["lib/sqfs/src/block_writer.c"], defines=dict(H=1, NB=1, SZ=2, MODE=3), unwind=10, tiers=["quick", "thorough"], timeout=300, fp_map=FPIO,
